@@ -218,6 +218,9 @@ func (u *Universe) genDoc(r *Rng, o docOpts) Doc {
 		f.Length = sum
 		if !u.exact {
 			f.Length += r.Intn(4)
+			if r.Chance(1, 12) {
+				f.Length = 0 // a field may report length 0 and still carry terms (keyword analyzers)
+			}
 		}
 		d = append(d, f)
 	}
